@@ -552,6 +552,62 @@ func TestVerif_C36_Pages(t *testing.T) {
 			id += 2
 		}
 	}
+	// URL templates that parse but fail when executed (the builder only parses them)
+	{
+		dir := filepath.Join(base, "tplfail")
+		os.MkdirAll(dir, 0o755)
+		for ri, tpls := range [][3]string{
+			{"https://example.com/{{.Path}}", "#L{{.LineNumber}}", "https://example.com/c/{{.Version}}"},
+			{"{{.Path.Nope}}", "{{.LineNumber.Nope}}", "{{.Nope}}"},
+		} {
+			sb, err := index.NewShardBuilder(&zoekt.Repository{Name: fmt.Sprintf("tpl/r%d", ri), ID: uint32(50 + ri),
+				FileURLTemplate: tpls[0], LineFragmentTemplate: tpls[1], CommitURLTemplate: tpls[2],
+				Branches: []zoekt.RepositoryBranch{{Name: "main", Version: "v1"}}})
+			if err != nil {
+				t.Fatalf("NewShardBuilder: %v", err)
+			}
+			sb.Add(index.Document{Name: "f.txt", Content: []byte("one needle line\n"), Branches: []string{"main"}})
+			f, _ := os.Create(filepath.Join(dir, fmt.Sprintf("t%d_v16.00000.zoekt", ri)))
+			if err := sb.Write(f); err != nil {
+				t.Fatal(err)
+			}
+			f.Close()
+		}
+		s, err := search.NewDirectorySearcher(dir)
+		if err != nil {
+			t.Fatal(err)
+		}
+		defer s.Close()
+		mux, err := NewMux(&Server{Searcher: s, Top: Top, HTML: true, Version: "verif"})
+		if err != nil {
+			t.Fatal(err)
+		}
+		for _, rq := range []c36Req{{"corpus", "results", [2]string{"/search?q=needle"}}, {"corpus", "repolist", [2]string{"/search?q=r:"}},
+			{"corpus", "repolist", [2]string{"/search?q=r:r0"}}} {
+			rec := httptest.NewRecorder()
+			mux.ServeHTTP(rec, httptest.NewRequest("GET", rq.path[0], nil))
+			res := rec.Result()
+			body, _ := io.ReadAll(res.Body)
+			ct := res.Header.Get("Content-Type")
+			if ct == "" {
+				ct = http.DetectContentType(body)
+			}
+			isHTML := strings.HasPrefix(ct, "text/html")
+			toks := []c36M{}
+			if isHTML {
+				toks, _, _ = c36Tokens(&c.sites, 1, body)
+			}
+			head := string(body)
+			if len(head) > 60 {
+				head = head[:60]
+			}
+			tr.Emit(c36M{"ev": "page", "id": id, "twin": id, "variant": "benign", "kind": rq.kind, "tmpl": rq.tmpl, "print": false,
+				"status": res.StatusCode, "html": isHTML, "nosniff": res.Header.Get("X-Content-Type-Options") == "nosniff",
+				"head": head, "tfail": strings.HasPrefix(head, "template:") || strings.Contains(string(body), "executing \""),
+				"path": "tplfail:" + rq.path[0], "toks": toks, "nbad": 0, "ndata": 0})
+			id++
+		}
+	}
 	b, _ := json.Marshal(len(c.sites.vals[0]))
 	t.Logf("c36: %d pages, %s sites", id, b)
 }
